@@ -10,7 +10,7 @@ rendering is invariant (`Proofs/C02.lean`). It is defined inductively on `GoVal`
 * `map`: `.map kt vt kvs ~ .map kt vt kvs'` when `kvs'` is a permutation of a list `mid` that has the keys
   of `kvs`, in the same order, with related values — provided the keys of `kvs` are booleans, numbers
   or strings, pairwise distinct as Go map keys (`MapOrder.KeysOK`: what the keys of one Go map of these
-  kinds always are);
+  kinds always are) and of the map's key type (`KeysTyped`);
 * `mapVals`: the same without the permutation, for every map (whatever its keys);
 * congruence for slices, fixed arrays, ordered maps (`yaml.MapSlice`: the order of its items is part of
   the value and is kept), `IterationKeyedMap`s and structs (values related field by field), pointers
@@ -31,6 +31,18 @@ def isPrivMap : GoVal → Bool
 /-- no entry holds the renderer's counter map -/
 def NoPriv (kvs : List (GoVal × GoVal)) : Prop := ∀ kv ∈ kvs, isPrivMap kv.2 = false
 
+/-- the dynamic type of a key is the one the key type of its map admits (`any` admits all) -/
+def keyHasTy : Ty → GoVal → Bool
+  | .any, _ => true
+  | .str, .str _ => true
+  | .int k, .int k' _ => k == k'
+  | .flt k, .flt k' _ => k == k'
+  | .bool, .bool _ => true
+  | _, _ => false
+
+/-- the keys of a map have its key type — as the keys of a Go map do -/
+def KeysTyped (kt : Ty) (kvs : List (GoVal × GoVal)) : Prop := ∀ kv ∈ kvs, keyHasTy kt kv.1 = true
+
 /-- no field holds the renderer's counter map -/
 def NoPrivF (fs : List (Bytes × GoVal)) : Prop := ∀ f ∈ fs, isPrivMap f.2 = false
 
@@ -40,7 +52,7 @@ inductive MP : GoVal → GoVal → Prop
   | slice (t : Ty) {xs ys : List GoVal} : MPL xs ys → MP (.slice t xs) (.slice t ys)
   | array (t : Ty) {xs ys : List GoVal} : MPL xs ys → MP (.array t xs) (.array t ys)
   | map (kt vt : Ty) {kvs mid kvs' : List (GoVal × GoVal)} : vt ≠ .priv → KeysOK kvs → NoPriv kvs →
-      MPV kvs mid → mid.Perm kvs' → MP (.map kt vt kvs) (.map kt vt kvs')
+      MPV kvs mid → mid.Perm kvs' → KeysTyped kt kvs → MP (.map kt vt kvs) (.map kt vt kvs')
   | mapVals (kt vt : Ty) {kvs kvs' : List (GoVal × GoVal)} : vt ≠ .priv → NoPriv kvs →
       MPV kvs kvs' → MP (.map kt vt kvs) (.map kt vt kvs')
   | mapSlice {kvs kvs' : List (GoVal × GoVal)} : MPV kvs kvs' → MP (.mapSlice kvs) (.mapSlice kvs')
@@ -180,7 +192,7 @@ theorem MP.cases_rigid {a b : GoVal} (h : MP a b) : b = a ∨ (rigidM a = false 
 
 theorem MP.priv_eq {a b : GoVal} (h : MP a b) : isPrivMap a = isPrivMap b := by
   cases h with
-  | map kt vt hv _ _ _ _ => cases vt <;> simp_all [isPrivMap]
+  | map kt vt hv _ _ _ _ _ => cases vt <;> simp_all [isPrivMap]
   | mapVals kt vt hv _ _ => cases vt <;> simp_all [isPrivMap]
   | _ => rfl
 
